@@ -251,7 +251,8 @@ impl ExecProp for C04 {
         let mut ch = Ch::new(choices);
         let sh = gen_shader(&mut ch, &profile(self.0));
         let wgsl = render(&sh);
-        Some(Built { sh, wgsl, include_path: None, opts: Opts { encase_host: true, ..Opts::default() }, extra: Value::Null, files: vec![] })
+        let opts = crate::expect::plain_opts(&sh)?;
+        Some(Built { sh, wgsl, include_path: None, opts, extra: Value::Null, files: vec![] })
     }
     fn probe_src(&self, b: &Built) -> String {
         probe_source(&b.sh)
